@@ -140,6 +140,13 @@ CURATED = [
     ([("a", 3, "h", "predir/../../elsewhere/victim", None), ("a", 0, "h", "pwn", None)], 1, 1, [1], False),
     ([("a", 1, "a/b", "", None), ("a", 3, "a/h", "b/../../../outside_secret", None)], 1, 1, [], True),
     ([("a", 0, "d/f", "x", None), ("a", 3, "h", "d/../d/f", None), ("a", 3, "h2", "d/./../h", 0o600)], 3, 1, [], False),
+    # --overwrite removes what is at a link entry's destination: a real directory made by earlier entries that holds a
+    # symbolic link to a directory OUTSIDE must be removed without following that link (seeded C09-5: a hand-written
+    # recursive removal that tests children with is_dir(), which follows links, empties the outside directory)
+    ([("a", 2, "d/s", "../../elsewhere", None), ("a", 0, "d/keep", "x", None), ("a", 2, "d", "nowhere", None)], 1, 1, [], False),
+    ([("a", 2, "d/e/s", "@S/elsewhere", None), ("a", 3, "d", "later", None), ("a", 0, "later", "x", None)], 1, 1, [], False),
+    ([("a", 2, "predir/s", "../../elsewhere", None), ("a", 2, "predir", "../elsewhere/sub", None)], 1, 1, [1], False),
+    ([("a", 2, "d/s", "../../elsewhere", None), ("a", 1, "d/sub", "", 0o500), ("a", 2, "d", "f", None), ("a", 0, "f", "x", None)], 3, 1, [], True),
 ]
 
 
